@@ -34,7 +34,7 @@ Definition l_init : lstate :=
 Inductive weffect :=
 | ENothing
 | EView (v : N)                 (* a NEW_VIEW moved the node to view v (>= current): the timer is re-armed *)
-| ECommitNext                   (* the height was committed, the next round starts *)
+| ECommitNext (block : option hv) (* the height was committed, the next round starts (its leader may block in RequestNewBlockProposal) *)
 | EBlockOn (k : hv).            (* an SPI call (validate / propose / commit callback) blocks on the context of key k *)
 
 Inductive label :=
@@ -51,8 +51,8 @@ Inductive label :=
 | LWorkerMsg (e : weffect)
 | LWorkerElect (block : option hv)      (* the worker takes the queued trigger; if elected leader it may block in RequestNewBlockProposal *)
 | LWorkerSync (block : option hv)       (* the worker takes the queued sync *)
-| LSpiReturn                            (* the SPI call returns by itself *)
-| LSpiReleased.                         (* the SPI call returns because its context is done *)
+| LSpiReturn (e : weffect)              (* the SPI call returns by itself; the handler that made it goes on with effect e *)
+| LSpiReleased (e : weffect).           (* the SPI call returns because its context is done; likewise *)
 
 Definition set_main p s := {| l_cancelled := l_cancelled s; l_main := p; l_worker := l_worker s; l_wh := l_wh s; l_wv := l_wv s; l_armed := l_armed s;
   l_reg := l_reg s; l_maxsync := l_maxsync s; l_upd := l_upd s; l_elect := l_elect s; l_msgs := l_msgs s; l_rounds := l_rounds s |}.
@@ -79,6 +79,19 @@ Definition new_round (h : N) (s : lstate) : lstate :=
   if N.leb h (l_wh s) then set_reg (snd fr) s else
   {| l_cancelled := l_cancelled s; l_main := l_main s; l_worker := l_worker s; l_wh := h; l_wv := 0; l_armed := Some (h, 0);
      l_reg := snd fr; l_maxsync := l_maxsync s; l_upd := l_upd s; l_elect := l_elect s; l_msgs := l_msgs s; l_rounds := h :: l_rounds s |}.
+
+(* what a handler does to the worker's state (s has l_worker = WSelect) *)
+Definition apply_effect (e : weffect) (s : lstate) : option lstate :=
+  match e with
+  | ENothing => Some s
+  | EView v => if N.ltb v (l_wv s) then None else
+      Some {| l_cancelled := l_cancelled s; l_main := l_main s; l_worker := WSelect; l_wh := l_wh s; l_wv := v; l_armed := Some (l_wh s, v);
+              l_reg := l_reg s; l_maxsync := l_maxsync s; l_upd := l_upd s; l_elect := l_elect s; l_msgs := l_msgs s; l_rounds := l_rounds s |}
+  | ECommitNext b =>
+      let s' := new_round (l_wh s + 1) s in
+      match b with None => Some s' | Some k => if N.eqb (fst k) (l_wh s') then enter_spi k s' else None end
+  | EBlockOn k => if N.eqb (fst k) (l_wh s) then enter_spi k s else None     (* contexts are of the current height *)
+  end.
 
 Definition lstep (s : lstate) (l : label) : option lstate :=
   match l with
@@ -147,14 +160,7 @@ Definition lstep (s : lstate) (l : label) : option lstate :=
       | WSelect, S k =>
         let s := {| l_cancelled := l_cancelled s; l_main := l_main s; l_worker := WSelect; l_wh := l_wh s; l_wv := l_wv s; l_armed := l_armed s;
                     l_reg := l_reg s; l_maxsync := l_maxsync s; l_upd := l_upd s; l_elect := l_elect s; l_msgs := k; l_rounds := l_rounds s |} in
-        match e with
-        | ENothing => Some s
-        | EView v => if N.ltb v (l_wv s) then None else
-            Some {| l_cancelled := l_cancelled s; l_main := l_main s; l_worker := WSelect; l_wh := l_wh s; l_wv := v; l_armed := Some (l_wh s, v);
-                    l_reg := l_reg s; l_maxsync := l_maxsync s; l_upd := l_upd s; l_elect := l_elect s; l_msgs := l_msgs s; l_rounds := l_rounds s |}
-        | ECommitNext => Some (new_round (l_wh s + 1) s)
-        | EBlockOn k => if N.eqb (fst k) (l_wh s) then enter_spi k s else None     (* contexts are of the current height *)
-        end
+        apply_effect e s
       | _, _ => None
       end
   | LWorkerElect b =>
@@ -180,8 +186,8 @@ Definition lstep (s : lstate) (l : label) : option lstate :=
         else match b with None => Some s | Some _ => None end     (* stale sync: ignored *)
       | _, _ => None
       end
-  | LSpiReturn => match l_worker s with WBusy _ => Some (set_worker WSelect s) | _ => None end
-  | LSpiReleased => match l_worker s with WBusy k => if ctx_done (l_reg s) k then Some (set_worker WSelect s) else None | _ => None end
+  | LSpiReturn e => match l_worker s with WBusy _ => apply_effect e (set_worker WSelect s) | _ => None end
+  | LSpiReleased e => match l_worker s with WBusy k => if ctx_done (l_reg s) k then apply_effect e (set_worker WSelect s) else None | _ => None end
   end.
 
 Fixpoint lrun (s : lstate) (ls : list label) : option lstate :=
